@@ -206,10 +206,31 @@ def theorems_in(path: Path):
     return names
 
 
-def forbidden_tokens():
-    """grep the whole Lean project for constructs the brief forbids."""
+def module_file(mod: str) -> Path:
+    return LEAN / (mod.replace(".", "/") + ".lean")
+
+
+def transitive_files(modules):
+    """project files the given modules depend on (following `import SkfemVerif.*` lines)"""
+    seen, todo = {}, list(modules)
+    while todo:
+        m = todo.pop()
+        if m in seen:
+            continue
+        f = module_file(m)
+        if not f.exists():
+            continue
+        seen[m] = f
+        for mm in re.findall(r"^import\s+(SkfemVerif\.[\w.]+)", f.read_text(), re.M):
+            todo.append(mm)
+    return sorted(seen.values())
+
+
+def forbidden_tokens(modules=None):
+    """grep the Lean files the property depends on for constructs the brief forbids."""
     hits = []
-    for p in sorted(LEAN.rglob("*.lean")):
+    files = transitive_files(modules) if modules else sorted(LEAN.rglob("*.lean"))
+    for p in files:
         if ".lake" in p.parts:
             continue
         src = strip_comments(p.read_text())
@@ -348,7 +369,7 @@ class Ctx:
         targets = list(modules)
         cmd = "cd lean && lake build " + " ".join(targets)
         self.checker_cmds.append(cmd)
-        hits = forbidden_tokens()
+        hits = forbidden_tokens(modules)
         if hits:
             self.broken.append({"kind": "forbidden-construct", "where": hits[:20]})
         ok, out = lake_build(targets + ["driver"])
